@@ -69,9 +69,13 @@ impl<T> ConcurrentVec<T> {
         if new_len <= head {
             return;
         }
-        self.push_at(f(), new_len - 1, || {
-            MaybeUninit::new(SyncUnsafeCell(UnsafeCell::new(f())))
-        });
+        // Write every slot in `head..new_len`: slots that were allocated (but
+        // not yet published) by an earlier `push`-driven growth are
+        // uninitialized, so relying on the growth callback alone would publish
+        // garbage once `head` moves past them.
+        for index in head..new_len {
+            self.push_at(f(), index, MaybeUninit::uninit);
+        }
         self.head.store(new_len, Ordering::Release);
     }
 
